@@ -21,7 +21,15 @@ def run(ctx):
         descs, hist, capped = enumerate_with_seeds(["job", "jobout"], seeds, N=6, k=4, kseed=2, allow=("struct", "pre"))
     items = [{"G": d} for d in descs]
     with Pool(seeds=hash_seeds(ctx), init="engines.gwork:init", recycle=5000) as pool:
-        outs = pool.map("engines.gwork:eval_c17", items)
+        # every description is evaluated in two worker processes with different PYTHONHASHSEED (another run of the same plan)
+        outs = pool.map_on("engines.gwork:eval_c17", items, [i + ctx.seed for i in range(len(items))])
+        outs2 = pool.map_on("engines.gwork:eval_c17", items, [i + ctx.seed + 1 for i in range(len(items))])
+    for it, o, o2 in zip(items, outs, outs2):
+        if o.get("rel") != o2.get("rel") or o.get("job") != o2.get("job"):
+            res.violation("not-reproducible:other-process", f"two processes (different PYTHONHASHSEED) generated different paths for the same configuration: "
+                          f"{o.get('job')} {o.get('rel')}  vs  {o2.get('job')} {o2.get('rel')} for {json.dumps(it['G'])[:600]}", {"G": it["G"], "problem": {"a": o.get("rel"), "b": o2.get("rel")}})
+    if True:
+        pass
     npaths, layouts = 0, set()
     for it, o in zip(items, outs):
         npaths += o["paths"]
@@ -33,8 +41,8 @@ def run(ctx):
         "evaluations": npaths,
         "distinct_nontrivial": len(layouts),
         "rule": "every task description within (N,k) structural deviations (generated-path parameters at task level, in nested configurations, list "
-                "elements, dict values, shared sub-configurations, pre-tasks, init tasks, two generated parameters on one object) submitted twice in "
-                "DRY_RUN; evaluations = generated paths checked; distinct_nontrivial = distinct sets of relative path positions",
+                "elements, dict values, shared sub-configurations, pre-tasks, init tasks, two generated parameters on one object) submitted five times "
+                "(every construction style / order) in DRY_RUN, in two processes with different PYTHONHASHSEED; evaluations = generated paths checked; distinct_nontrivial = distinct sets of relative path positions",
         "samples": clip_samples([sorted(l) for l in list(layouts)[:3]]),
         "exhaustive": not capped, "descriptions": len(descs),
     }
